@@ -75,6 +75,7 @@ class Explorer:
             self.trace: list[list] = []
             self.pc: list = []
             self.named = {}
+            self.scratch = {}  # per-path memo tables of helper libraries
             self.notes = {}
             self.solver = z3.Solver()
             self.solver.set("timeout", self.timeout_ms)
@@ -378,7 +379,7 @@ FORMAT_LIMIT = [CONCRETIZE_LIMIT]  # ranges wider than this render as TaintedStr
 class SymInt:
     """Exact mathematical integer, represented as signed bit-vector wide enough for [lo, hi]."""
 
-    __slots__ = ("e", "lo", "hi")
+    __slots__ = ("e", "lo", "hi", "_negof")
 
     def __init__(self, e, lo, hi):
         self.e, self.lo, self.hi = e, lo, hi
@@ -444,6 +445,18 @@ class SymInt:
     def is_const(self):
         return self.lo == self.hi
 
+    def bit_count(self):
+        """int.bit_count: number of ones in |x| (forks on the sign)"""
+        if self.is_const():
+            return self.lo.bit_count()
+        a = -self if bool(self < 0) else self
+        w = a.e.size()
+        ow = max(2, w.bit_length() + 2)
+        tot = z3.BitVecVal(0, ow)
+        for i in range(w - 1):  # the top bit is the (zero) sign
+            tot = tot + z3.ZeroExt(ow - 1, z3.Extract(i, i, a.e))
+        return _mk(tot, 0, max(a.hi, 0).bit_length())
+
     # arithmetic
     def _bin(self, o, f, rng):
         try:
@@ -466,7 +479,15 @@ class SymInt:
         return SymInt.lift(o).__sub__(self)
 
     def __neg__(self):
-        return SymInt.lift(0) - self
+        back = getattr(self, "_negof", None)
+        if back is not None:
+            return back  # -(-x) is x, syntactically (keeps provenance tables of the text library effective)
+        r = SymInt.lift(0) - self
+        try:
+            r._negof = self
+        except AttributeError:
+            pass
+        return r
 
     def __pos__(self):
         return self
